@@ -237,6 +237,7 @@ impl Check for C15C {
             expand: stage != format!("bfs{}", depth - 1),
             order_queries: &[],
             warm_queries: &[],
+            max_depth: vec![],
         })
     }
     fn case_cap(&self, tier: Tier) -> f64 {
